@@ -257,6 +257,14 @@ theorem quiesceLoop_done {σ} {cfg : DevCfg σ} (hpos : cfg.tsm.TimeoutsPos) :
 
 theorem quiesce_done {σ} {cfg : DevCfg σ} (hpos : cfg.tsm.TimeoutsPos) {s : DevState σ} (hg : Good s) :
     Good (quiesce cfg s).1 ∧ (quiesce cfg s).1.sap.servers = [] ∧
-    (quiesce cfg s).1.routes = s.routes ∧ (quiesce cfg s).1.app = s.app := by
+    (quiesce cfg s).1.routes = s.routes ∧ (quiesce cfg s).1.app = s.app ∧
+    (quiesce cfg s).1.nniPending = false := by
+  obtain ⟨h1, h2, h3, h4⟩ := quiesceLoop_done hpos _ s hg (Nat.le_refl (budget cfg.base.retries s.sap.servers))
   unfold quiesce
-  exact quiesceLoop_done hpos _ s hg (Nat.le_refl _)
+  dsimp only
+  split
+  · exact ⟨h1.congr rfl, h2, h3, h4, rfl⟩
+  · rename_i hp
+    exact ⟨h1, h2, h3, h4, by simpa using hp⟩
+
+end BacVerif.Device
